@@ -18,13 +18,23 @@ class PointInShape:
     nfree = 0
     spot_names = ["membership differs from region truth", "boundary point not answered by the boundary flag"]
 
-    def __init__(self, shape, flag, via="contains_point"):
+    def __init__(self, shape, flag, via="contains_point", moved=None):
         self.shape, self.flag, self.via = shape, flag, via
+        self.moved = [F(m) for m in moved] if moved else [F(0), F(0)]
+        self.was_moved = bool(moved)
         self.names = ["px", "py"]
+
+    def region(self):
+        return geom.region_of_name(self.shape, self.moved[0], self.moved[1])
 
     def run(self, xs):
         if getattr(self, "_S", None) is None:
             self._S = geom.make(self.shape)  # concrete shape, built once per worker
+            if self.was_moved:  # a shape that answered queries where it was built and was then moved in place is a shape like any other
+                for q in ((F(1, 3), F(1, 7)), (F(40), F(-17))):
+                    q in self._S
+                    self._S.contains_point(q, False)
+                self._S.move(self.moved[0], self.moved[1])
         S = self._S
         p = (xs[0], xs[1])
         if self.via == "in":
@@ -41,7 +51,7 @@ class PointInShape:
         ans = z3.BoolVal(out["ans"])
         if getattr(self, "_f", None) is None:
             px, py = [Sym.var(i, 0) for i in range(2)]
-            reg = geom.region_of_name(self.shape)
+            reg = self.region()
             polys = R.polys_of(reg)
             if self.via == "jordan_in":
                 self._f = (R.z_on_boundary(px, py, polys), R.z_off_boundary(px, py, polys, R.BAND * 2), None, polys)
@@ -64,14 +74,14 @@ class PointInShape:
             return exc is not None, f"p={tuple(map(str, xs))} -> {exc}"
         if outcome is None:
             return False, f"plain run raised {exc}"
-        reg = geom.region_of_name(self.shape)
+        reg = self.region()
         polys = R.polys_of(reg)
         p = (xs[0], xs[1])
         d2 = R.x_dist2_boundary(p, polys) if polys else None
         truth = R.x_in(reg, p)
         ans = outcome["ans"]
         flag = self.flag if self.via != "in" else True
-        txt = f"shape={self.shape} p=({xs[0]}, {xs[1]}) flag={flag} via={self.via}: library says {ans}, region truth {truth}, dist^2 to boundary {d2}"
+        txt = f"shape={self.shape}{' queried, then moved in place by (%s, %s)' % tuple(self.moved) if self.was_moved else ''} p=({xs[0]}, {xs[1]}) flag={flag} via={self.via}: library says {ans}, region truth {truth}, dist^2 to boundary {d2}"
         if self.via == "jordan_in":
             if d2 == 0:
                 return ans is False, txt
@@ -98,6 +108,10 @@ def specs(tier):
         out.append(dict(module="checks.c02", scenario="PointInShape", params=dict(shape=s, flag=True, via="in")))
     for s in ["penta", "cw:ell"] + (["you", "quad"] if tier != "quick" else []):
         out.append(dict(module="checks.c02", scenario="PointInShape", params=dict(shape=s, flag=True, via="jordan_in")))
+    for s in ["hollow", "inv:two"] + (["framedot", "cw:penta", "ell"] if tier != "quick" else []):
+        for flag in (True, False):
+            out.append(dict(module="checks.c02", scenario="PointInShape", params=dict(shape=s, flag=flag, moved=["5", "3"])))
+    out.append(dict(module="checks.c02", scenario="PointInShape", params=dict(shape="penta", flag=True, via="jordan_in", moved=["-7", "5/2"])))
     for s in ["circle8", "lens"] + (["circle16", "dcup"] if tier != "quick" else []):
         out.append(dict(module="checks.c02", scenario="PointInCurved", params=dict(shape=s), time_budget=45 if tier == "quick" else 400))
     return out
